@@ -41,6 +41,10 @@ pub enum Ty {
     Pub,
     /// the subject of one group of group_by (a token; calls on it are `Ev.to id ..`)
     Grp,
+    /// an inner observable handed to a flattening operator (`ObservableItem: Observable<..>`)
+    Inner,
+    /// a stored closure that subscribes an inner observable later (`Box<dyn FnOnce()>`)
+    Lazy,
     Named(String),
 }
 
@@ -58,6 +62,8 @@ impl Ty {
             Ty::Sub => "Rs.Sub".into(),
             Ty::Pub => "Rs.Pub".into(),
             Ty::Grp => "Rs.Grp".into(),
+            Ty::Inner => "Rs.Inner".into(),
+            Ty::Lazy => "Rs.Lazy".into(),
             Ty::Opt(t) => format!("(Option {})", t.lean()),
             Ty::List(t) => format!("(List {})", t.lean()),
             Ty::Tuple(ts) => format!("({})", ts.iter().map(|t| t.lean()).collect::<Vec<_>>().join(" × ")),
@@ -156,6 +162,8 @@ impl Generics {
                             "Observer" | "Observable" => {
                                 if name == "Observer" {
                                     g.map.insert(n.clone(), Ty::Obs);
+                                } else if g.map.get(n) == Some(&Ty::Val) {
+                                    g.map.insert(n.clone(), Ty::Inner);
                                 }
                                 // the second argument of Observer<Item, Err> / Observable<Item, Err, O> is an error type
                                 let ta = type_args(&tb.path);
@@ -217,6 +225,9 @@ impl Generics {
                     if let TypeParamBound::Trait(tb) = b {
                         if last_seg(&tb.path) == "Publisher" {
                             return Ok(Ty::Pub);
+                        }
+                        if matches!(last_seg(&tb.path).as_str(), "FnOnce" | "FnMut" | "Fn") {
+                            return Ok(Ty::Lazy);
                         }
                     }
                 }
@@ -358,6 +369,12 @@ pub struct Fx<'a> {
     effectful: bool,
     /// tuple struct wrapping a cell: `self.0` is the cell
     newtype: bool,
+    /// locals that are working copies of the payload of an optional place: every write goes through to it
+    payload_of: HashMap<String, Place>,
+    /// further definitions produced while translating this body (stored closures)
+    extra: Vec<String>,
+    /// name of the function being translated
+    fname: String,
 }
 
 impl<'a> Fx<'a> {
@@ -382,6 +399,9 @@ impl<'a> Fx<'a> {
             aliases: self.aliases.clone(),
             effectful: self.effectful,
             newtype: self.newtype,
+            payload_of: self.payload_of.clone(),
+            extra: vec![],
+            fname: self.fname.clone(),
         }
     }
 
@@ -529,6 +549,12 @@ impl<'a> Fx<'a> {
             let fs: Vec<String> = path.iter().map(|s| if let Seg::Field(f) = s { ident(f) } else { unreachable!() }).collect();
             self.emit(format!("{} := {{ {} with {} := {} }}", root, root, fs.join("."), v));
         }
+        // a working copy of an optional place's payload: write through
+        if !p.root_self {
+            if let Some(op) = self.payload_of.get(&p.local).cloned() {
+                self.write_place(&op, &format!("(some {})", p.local))?;
+            }
+        }
         Ok(())
     }
 
@@ -539,10 +565,18 @@ impl<'a> Fx<'a> {
             Expr::Group(p) => self.tyx(&p.expr),
             Expr::Reference(r) => self.tyx(&r.expr),
             Expr::Unary(u) if matches!(u.op, UnOp::Deref(_)) => self.tyx(&u.expr),
-            Expr::Path(_) | Expr::Field(_) => {
-                let p = self.place(e).ok()?;
-                self.place_ty(&p)
-            }
+            Expr::Path(_) | Expr::Field(_) => match self.place(e) {
+                Ok(p) => self.place_ty(&p),
+                Err(_) => {
+                    if let Expr::Field(f) = e {
+                        if let Member::Named(n) = &f.member {
+                            let bt = self.tyx(&f.base)?;
+                            return self.struct_of(&bt)?.field_ty(&n.to_string()).cloned();
+                        }
+                    }
+                    None
+                }
+            },
             Expr::MethodCall(m) => {
                 if self.is_root(e) {
                     return Some(self.root_ty());
@@ -561,6 +595,7 @@ impl<'a> Fx<'a> {
                         _ => None,
                     },
                     ("len", 0) => Some(Ty::Nat),
+                    ("actual_subscribe", 1) if rt == Ty::Inner => Some(Ty::Sub),
                     ("drain", 0) | ("drain", 1) => Some(rt),
                     _ => None,
                 }
@@ -571,6 +606,13 @@ impl<'a> Fx<'a> {
                     f = &p.expr;
                 }
                 if let Expr::Path(p) = f {
+                    if let Some(q) = &p.qself {
+                        if let Type::Path(tp) = &*q.ty {
+                            if last_seg(&tp.path).starts_with("BoxSubscription") && c.args.len() == 1 {
+                                return self.tyx(&c.args[0]);
+                            }
+                        }
+                    }
                     if let Some(en) = self.enum_of_path(&p.path) {
                         return Some(Ty::Named(en));
                     }
@@ -587,6 +629,9 @@ impl<'a> Fx<'a> {
                         }
                         if h.starts_with("Subscriber") {
                             return Some(Ty::Pub);
+                        }
+                        if h.starts_with("BoxSubscription") && c.args.len() == 1 {
+                            return self.tyx(&c.args[0]);
                         }
                     }
                 }
@@ -759,6 +804,26 @@ impl<'a> Fx<'a> {
                         return Ok(());
                     }
                 }
+                // `let mut data = self.cell.rc_deref_mut();` / `let cell = self.cell.clone();` — another name for a cell
+                if let (Pat::Ident(pi), Expr::MethodCall(mc)) = (&l.pat, &*init.expr) {
+                    let mn = mc.method.to_string();
+                    if mc.args.is_empty() && matches!(mn.as_str(), "rc_deref_mut" | "rc_deref" | "borrow_mut" | "clone") {
+                        if let Ok(pl) = self.place(&mc.receiver) {
+                            let is_state = match self.place_ty(&pl) {
+                                Some(Ty::Named(_)) => true,
+                                Some(Ty::Opt(t)) => matches!(*t, Ty::Named(_) | Ty::List(_)) || mn != "clone",
+                                Some(Ty::List(_)) => mn != "clone",
+                                _ => false,
+                            };
+                            if is_state && (pl.root_self || self.aliases.contains_key(&pl.local)) {
+                                let n = ident(&pi.ident.to_string());
+                                self.locals.remove(&n);
+                                self.aliases.insert(n, pl);
+                                return Ok(());
+                            }
+                        }
+                    }
+                }
                 // `let x = map.entry(k).or_insert_with(|| { … });` — look the key up; only a new key runs the closure
                 if let (Pat::Ident(pi), Expr::MethodCall(oi)) = (&l.pat, &*init.expr) {
                     if oi.method == "or_insert_with" && oi.args.len() == 1 {
@@ -869,12 +934,12 @@ impl<'a> Fx<'a> {
                     self.emit(format!("let mut {} := {}0", v, v));
                     self.aliases.remove(&v);
                     self.locals.insert(v.clone(), (**inner).clone());
+                    let saved_p = self.payload_of.clone();
+                    self.payload_of.insert(v.clone(), pl.clone());
                     for st in &then.stmts {
                         self.stmt(st)?;
                     }
-                    if self.effectful {
-                        self.write_place(&pl, &format!("(some {})", v))?;
-                    }
+                    self.payload_of = saved_p;
                     self.ind -= 2;
                     self.locals = saved_l;
                     self.aliases = saved_a;
@@ -959,10 +1024,10 @@ impl<'a> Fx<'a> {
                                     self.emit(format!("let mut {} := {}0", v, v));
                                     self.aliases.remove(&v);
                                     self.locals.insert(v.clone(), (**inner).clone());
+                                    let saved_p = self.payload_of.clone();
+                                    self.payload_of.insert(v.clone(), pl.clone());
                                     self.expr_stmt(&sa.body)?;
-                                    if self.effectful {
-                                        self.write_place(&pl, &format!("(some {})", v))?;
-                                    }
+                                    self.payload_of = saved_p;
                                     self.ind -= 2;
                                     self.locals = saved_l;
                                     self.aliases = saved_a;
@@ -1154,10 +1219,18 @@ impl<'a> Fx<'a> {
                     bail(format!("path `{}`", show(p)))
                 }
             }
-            Expr::Field(_) => {
-                let pl = self.place(e)?;
-                Ok(self.read_place(&pl))
-            }
+            Expr::Field(f) => match self.place(e) {
+                Ok(pl) => Ok(self.read_place(&pl)),
+                Err(pe) => {
+                    // a field of a value (`cell.take().unwrap().observer`)
+                    if let Member::Named(n) = &f.member {
+                        let b = self.expr(&f.base)?;
+                        Ok(format!("{}.{}", b, ident(&n.to_string())))
+                    } else {
+                        Err(pe)
+                    }
+                }
+            },
             Expr::Tuple(t) => {
                 if t.elems.is_empty() {
                     return Ok("()".into());
@@ -1379,6 +1452,14 @@ impl<'a> Fx<'a> {
             };
         }
         if let Expr::Path(p) = f {
+            // `<BoxSubscription<'a>>::new(unsub)`: boxing is transparent
+            if let Some(q) = &p.qself {
+                if let Type::Path(tp) = &*q.ty {
+                    if last_seg(&tp.path).starts_with("BoxSubscription") && last_seg(&p.path) == "new" && c.args.len() == 1 {
+                        return self.expr(&c.args[0]);
+                    }
+                }
+            }
             // `Observer::next(&mut self.subject, value)`: a method call in function form
             if p.path.segments.len() == 2 && TRAITS.contains(&p.path.segments[0].ident.to_string().as_str()) && !c.args.is_empty() {
                 let recv = &c.args[0];
@@ -1399,6 +1480,11 @@ impl<'a> Fx<'a> {
             // a local name for a closure field (`let S { binary_op, .. } = &mut *inner; binary_op(a, b)`)
             if p.path.segments.len() == 1 {
                 if let Ok(pl) = self.place(f) {
+                    if self.place_ty(&pl) == Some(Ty::Lazy) && c.args.is_empty() {
+                        let r = self.read_place(&pl);
+                        self.out(format!("Rs.emitLazy {}.id", r))?;
+                        return Ok("()".into());
+                    }
                     if self.place_ty(&pl) == Some(Ty::Callback) && c.args.is_empty() {
                         let r = self.read_place(&pl);
                         self.out(format!("Rs.emitCall {}.id", r))?;
@@ -1421,8 +1507,12 @@ impl<'a> Fx<'a> {
             }
             match (name, args.len()) {
                 ("drop", 1) if full.len() == 1 => return Ok("()".into()),
-                ("new", 1) if full.len() == 2 && full[0] == "Box" => return self.expr(args[0]),
+                ("new", 1) if full.len() == 2 && full[0] == "Box" && !matches!(args[0], Expr::Closure(_)) => return self.expr(args[0]),
                 ("new", 1) if full.len() == 2 && full[0].starts_with("Subscriber") => return Ok("newPub".into()),
+                ("new", 1) if full.len() == 2 && full[0].starts_with("BoxSubscription") => return self.expr(args[0]),
+                ("new", 1) if full.len() == 2 && full[0] == "Box" && matches!(args[0], Expr::Closure(_)) => {
+                    return self.stored_closure(args[0]);
+                }
                 ("Some", 1) => return Ok(format!("(some {})", self.expr(args[0])?)),
                 ("new", 0) | ("default", 0) => return Ok("Rs.dflt".into()),
                 ("take", 1) if full.contains(&"mem".to_string()) => {
@@ -1517,6 +1607,12 @@ impl<'a> Fx<'a> {
                 return self.struct_call(si, &name, &m.receiver, &args);
             }
             return bail("the slot observer (RcObserver) is not available in this module");
+        }
+        // an inner observable of a flattening operator
+        if rt == Some(Ty::Inner) && name == "actual_subscribe" && nargs == 1 {
+            let r = self.expr(&m.receiver)?;
+            self.out(format!("Rs.emitStart {}.id", r))?;
+            return Ok(format!("(Rs.Sub.mk {}.id)", r));
         }
         // the subject of a group
         if rt == Some(Ty::Grp) {
@@ -1868,6 +1964,47 @@ impl<'a> Fx<'a> {
             && name == "Subject"
     }
 
+    /// `Box::new(move || { … })` stored for later: a token naming the inner observable it will subscribe, and a separate
+    /// definition `<Struct>.<fn>_lazy` with what running it does
+    fn stored_closure(&mut self, e: &Expr) -> Res<String> {
+        let Expr::Closure(c) = e else { return bail("expected a closure") };
+        if !c.inputs.is_empty() {
+            return bail("stored closure with parameters");
+        }
+        // the inner observable it captures: the receiver of `.actual_subscribe(..)`
+        let txt = show_full(&c.body);
+        let mut cap = None;
+        for (n, t) in &self.locals {
+            if *t == Ty::Inner && txt.contains(&format!("{} . actual_subscribe", n.trim_end_matches('_'))) {
+                cap = Some(n.clone());
+            }
+        }
+        let cap = cap.ok_or("stored closure that subscribes no inner observable")?;
+        let mut fx = self.sub();
+        fx.ind = 1;
+        fx.payload_of.clear();
+        match &*c.body {
+            Expr::Block(b) => {
+                for st in &b.block.stmts {
+                    fx.stmt(st)?;
+                }
+            }
+            other => fx.expr_stmt(other)?,
+        }
+        let sn = self.state_ty();
+        let mut d = format!(
+            "def {}.{}_lazy (self0 : {}) ({} : Rs.Inner) : Option ({} × Rs.Out) := do\n  let mut self_ := self0\n  let mut out : Rs.Out := []\n",
+            sn, self.fname, sn, cap, sn
+        );
+        for l in fx.lines {
+            d += &l;
+            d.push('\n');
+        }
+        d += "  return (self_, out)\n\n";
+        self.extra.push(d);
+        Ok(format!("(Rs.Lazy.mk {}.id)", cap))
+    }
+
     /// the Lean name of the state type
     fn state_ty(&self) -> String {
         self.strukt.name.clone()
@@ -2013,6 +2150,8 @@ pub fn parse_spec(spec: &str) -> Ty {
         "callback" => Ty::Callback,
         "sub" => Ty::Sub,
         "grp" => Ty::Grp,
+        "inner" => Ty::Inner,
+        "lazy" => Ty::Lazy,
         _ if spec.starts_with("named:") => Ty::Named(spec[6..].to_string()),
         _ if spec.starts_with("opt:") => Ty::Opt(Box::new(parse_spec(&spec[4..]))),
         _ => panic!("bad type spec {}", spec),
@@ -2063,6 +2202,33 @@ pub fn translate_enum(items: &[Item], name: &str, ctx: &mut Ctx) -> Res<String> 
     }
     s.push('\n');
     ctx.enums.insert(name.to_string(), EnumInfo { name: name.to_string(), ctors });
+    Ok(s)
+}
+
+/// A struct without translated methods (the content of a shared cell, e.g. `ObserverData` of merge_all).
+pub fn translate_plain_struct(items: &[Item], name: &str, ctx: &mut Ctx, hints: &HashMap<String, Ty>) -> Res<String> {
+    let st = find_struct(items, name).ok_or(format!("struct {} not found", name))?;
+    let mut g = generics_for(&st.generics, &[], ctx, hints)?;
+    g.known.push(name.to_string());
+    let mut fields = vec![];
+    match &st.fields {
+        Fields::Named(nf) => {
+            for f in &nf.named {
+                if is_phantom(&f.ty) {
+                    continue;
+                }
+                let n = f.ident.as_ref().unwrap().to_string();
+                fields.push((n.clone(), g.ty(&f.ty).map_err(|e| format!("field {}: {}", n, e))?));
+            }
+        }
+        _ => return bail("struct shape"),
+    }
+    let mut s = format!("structure {} where\n", name);
+    for (n, t) in &fields {
+        writeln!(s, "  {} : {}", ident(n), t.lean()).unwrap();
+    }
+    s.push('\n');
+    ctx.structs.insert(name.to_string(), StructInfo { name: name.to_string(), fields, methods: HashMap::new(), root_ty: None, prefix: String::new() });
     Ok(s)
 }
 
@@ -2275,6 +2441,9 @@ pub fn translate_observer(items: &[Item], name: &str, ctx: &mut Ctx, hints: &Has
             aliases: HashMap::new(),
             effectful: *effectful,
             newtype,
+            payload_of: HashMap::new(),
+            extra: vec![],
+            fname: fname.clone(),
         };
         if *effectful {
             let mut ok = true;
@@ -2286,6 +2455,9 @@ pub fn translate_observer(items: &[Item], name: &str, ctx: &mut Ctx, hints: &Has
                 }
             }
             if ok {
+                for x in &fx.extra {
+                    s += x;
+                }
                 writeln!(s, "def {}.{} (self0 : {}){} : Option ({} × Rs.Out) := do", name, fname, state_ty, ps, state_ty).unwrap();
                 writeln!(s, "  let mut self_ := self0").unwrap();
                 writeln!(s, "  let mut out : Rs.Out := []").unwrap();
@@ -2300,7 +2472,7 @@ pub fn translate_observer(items: &[Item], name: &str, ctx: &mut Ctx, hints: &Has
                 Ok(v) => writeln!(s, "def {}.{} (self_ : {}){}{} : {} :=\n  {}\n", name, fname, state_ty, ps, down, mi.ret.lean(), v).unwrap(),
                 Err(e1) => {
                     // a query that can panic (`unwrap()`): the same in the Option monad
-                    let mut fx2 = Fx { strukt: &info, ctx, lines: vec![], ind: 1, tmp: 0, locals: params.iter().cloned().collect(), aliases: HashMap::new(), effectful: false, newtype };
+                    let mut fx2 = Fx { strukt: &info, ctx, lines: vec![], ind: 1, tmp: 0, locals: params.iter().cloned().collect(), aliases: HashMap::new(), effectful: false, newtype, payload_of: HashMap::new(), extra: vec![], fname: fname.clone() };
                     let n = u.f.block.stmts.len();
                     let mut res: Res<String> = bail("empty body");
                     for (k, st) in u.f.block.stmts.iter().enumerate() {
@@ -3062,6 +3234,18 @@ fn main() {
                         failed += 1;
                         eprintln!("{}: enum {}: {}", ent.file, en, e);
                         writeln!(lean, "-- TRANSLATION FAILED for enum {}: {}\n", en, e).unwrap();
+                    }
+                }
+            }
+            for pst in ent.structs {
+                let hints: HashMap<String, Ty> =
+                    ent.hints.iter().filter(|h| h.0 == *pst).map(|h| (h.1.to_string(), parse_spec(h.2))).collect();
+                match translate_plain_struct(&items, pst, &mut ctx, &hints) {
+                    Ok(s) => lean += &s,
+                    Err(e) => {
+                        failed += 1;
+                        eprintln!("{}: struct {}: {}", ent.file, pst, e);
+                        writeln!(lean, "-- TRANSLATION FAILED for struct {}: {}\n", pst, e).unwrap();
                     }
                 }
             }
